@@ -23,6 +23,14 @@ RELATIONS = [
 PATTERNS = [None, None, "^\\d+$", "^[a-z]\\\\w+$"]
 
 
+# add_prefix documents its synonym parameters as Collection[str] | None: every real Collection is tried
+# (one-shot iterators are not Collections and are deliberately not passed)
+COLLECTION_TYPES = {
+    "list": list, "tuple": tuple, "set": set, "frozenset": frozenset,
+    "dict_keys": lambda xs: dict.fromkeys(xs).keys(), "omit": list,
+}
+
+
 def gen_valid_records(rng, curie_pool, uri_pool, n, with_pattern=True, max_syn=2):
     """A strict-valid record set over the pools (tokens used at most once)."""
     cp = list(curie_pool)
@@ -109,6 +117,8 @@ class C05Machine(Machine):
         self.n_merge_new = 0
         self.n_reject = 0
         self.rejected = []        # earlier rejected submissions (op dicts), for the retry relations
+        self.delimiter0 = config["delimiter"]
+        self.focus = None
         self.started = False
 
     # ----------------------------------------------------------- generation
@@ -139,6 +149,7 @@ class C05Machine(Machine):
             op["record"] = copy.deepcopy(self.last_record_dump)
         if kind == "add_prefix":
             op["record"]["pattern"] = None
+            op["coll"] = rng.choice(["list", "list", "tuple", "set", "frozenset", "dict_keys", "omit"])
         return op
 
     def _gen_start(self, rng):
@@ -383,6 +394,7 @@ class C05Machine(Machine):
             self.event("start_failed_fallback_empty")
             conv = Converter([], delimiter=delim)
         self.conv = conv
+        self.delimiter0 = conv.delimiter      # a configuration of the converter: no add may change it
         # "starting from any strict converter": the model starts at whatever the
         # real start converter's records are
         dumps = [observe.record_dump(r) for r in conv.records]
@@ -405,6 +417,16 @@ class C05Machine(Machine):
         cs, merge = op["case_sensitive"], op["merge"]
         pre = self.snap
         mrec = MRecord.from_dump(rd)
+        # query - add - query on the very strings the submission is about: the last lookups before the
+        # call and the first lookups after it are the same (what a last-lookup memo would get wrong)
+        d = self.delimiter0
+        fstrings = list(dict.fromkeys(
+            [p + d + "1" for p in [rd["prefix"], *rd["prefix_synonyms"]][:3]]
+            + [u + "1" for u in [rd["uri_prefix"], *rd["uri_prefix_synonyms"]][:3]]
+            + [rd["prefix"], rd["uri_prefix"]]))
+        fpairs = [(p, "1") for p in [rd["prefix"], *rd["prefix_synonyms"]][:3]]
+        pre_focus = observe.answers(conv, fstrings, fpairs, full=False)
+        self.focus = (fstrings, fpairs)
 
         err = None
         try:
@@ -420,12 +442,14 @@ class C05Machine(Machine):
                 self.last_record_dump = copy.deepcopy(rd)
                 conv.add_record(robj, case_sensitive=cs, merge=merge)
             else:
-                conv.add_prefix(
-                    rd["prefix"], rd["uri_prefix"],
-                    prefix_synonyms=list(rd["prefix_synonyms"]),
-                    uri_prefix_synonyms=list(rd["uri_prefix_synonyms"]),
-                    case_sensitive=cs, merge=merge,
-                )
+                coll = COLLECTION_TYPES[op.get("coll", "list")]
+                kw = {}
+                if rd["prefix_synonyms"] or op.get("coll", "list") != "omit":
+                    kw["prefix_synonyms"] = coll(rd["prefix_synonyms"])
+                if rd["uri_prefix_synonyms"] or op.get("coll", "list") != "omit":
+                    kw["uri_prefix_synonyms"] = coll(rd["uri_prefix_synonyms"])
+                self.probe("coll_" + op.get("coll", "list"))
+                conv.add_prefix(rd["prefix"], rd["uri_prefix"], case_sensitive=cs, merge=merge, **kw)
         except Exception as e:  # noqa: BLE001
             err = e
 
@@ -434,14 +458,16 @@ class C05Machine(Machine):
         outcome, target = self.model.add(mrec, cs, merge)
         self.event(op["op"])
         self.event("model_" + outcome)
+        post_focus = observe.answers(conv, fstrings, fpairs, full=False)   # the first lookups after the call
         post = self._snapshot()
 
         if err is not None:
             if not isinstance(err, ValueError):
                 raise Violation(PROP, "wrong_exception", site, {"exception": type(err).__name__, "op": op})
-            if post != pre:
+            if post != pre or post_focus != pre_focus:
                 raise Violation(PROP, "rejected_changed_state", site,
-                                {"exception": type(err).__name__, "diff": observe.diff(pre, post), "op": op})
+                                {"exception": type(err).__name__,
+                                 "diff": observe.diff(pre, post) or observe.diff(pre_focus, post_focus), "op": op})
             if not outcome.startswith("reject"):
                 # undo nothing: the model already moved; report
                 raise Violation(PROP, "accept_reject_mismatch", site,
@@ -460,7 +486,7 @@ class C05Machine(Machine):
                 raise Violation(PROP, "accept_reject_mismatch", site,
                                 {"real": "accepted", "model": outcome, "op": op,
                                  "diff": observe.diff(pre["structure"], post["structure"])})
-            self._check_consistent(post, site, submitted=mrec, target=target, op=op)
+            self._check_consistent(post, site, submitted=mrec, target=target, op=op, live_focus=post_focus)
             if outcome == "merge_new":
                 self.n_merge_new += 1
                 if not cs:
@@ -496,7 +522,7 @@ class C05Machine(Machine):
             self.snap = self._snapshot()
 
     # ------------------------------------------------------------- oracles
-    def _check_consistent(self, post, site, submitted, target, op=None):
+    def _check_consistent(self, post, site, submitted, target, op=None, live_focus=None):
         c = self.curies
         conv = self.conv
         dumps = post["structure"]["records"]
@@ -508,9 +534,13 @@ class C05Machine(Machine):
         clashes = uniqueness_clashes(dumps)
         if clashes:
             raise Violation(PROP, "not_unique", site, {"clashes": clashes[:6], "op": op})
-        # oracle 4: same answers as a converter freshly built from the current records
+        # oracle 4: same answers as a converter freshly built from the current records (and the
+        # delimiter the converter started with - read from memory, not from the live object)
+        if conv.delimiter != self.delimiter0:
+            raise Violation(PROP, "delimiter_changed", site,
+                            {"started_with": self.delimiter0, "now": conv.delimiter, "op": op})
         try:
-            fresh = c.Converter([c.Record(**d) for d in copy.deepcopy(dumps)], delimiter=conv.delimiter)
+            fresh = c.Converter([c.Record(**d) for d in copy.deepcopy(dumps)], delimiter=self.delimiter0)
         except Exception as e:  # noqa: BLE001
             raise Violation(PROP, "fresh_construct_failed", site, {"exception": type(e).__name__, "op": op})
         fsnap = observe.snapshot(fresh, self.strings, self.pairs, full=True, ordered=False)
@@ -518,6 +548,11 @@ class C05Machine(Machine):
                 "answers": post["answers"]}
         if fsnap != live:
             raise Violation(PROP, "fresh_mismatch", site, {"diff": observe.diff(fsnap, live), "op": op})
+        if live_focus is not None and self.focus is not None:
+            ffresh = observe.answers(fresh, self.focus[0], self.focus[1], full=False)
+            if ffresh != live_focus:
+                raise Violation(PROP, "fresh_mismatch", site,
+                                {"first_lookups_after_the_call": True, "diff": observe.diff(ffresh, live_focus), "op": op})
         # oracle 5: every prefix / URI prefix of the submission resolves to one record
         if submitted is not None and target is not None:
             t = target.prefix
